@@ -96,6 +96,7 @@ func recoverCheck(w *harness.World, img *vstor.Stor, what string, loose map[stri
 	w2 := harness.NewWorld(w.Cfg)
 	w2.Stor = img
 	w2.Probes = w.Probes
+	w2.Step = w.Step + 500 // later writes use values the history never wrote
 	db, err := leveldb.Recover(img, w.Cfg.Options())
 	if err != nil {
 		w.Viol = append(w.Viol, fmt.Sprintf("%s: Recover failed: %v", what, err))
